@@ -1065,10 +1065,10 @@ def run(ck: core.Check):
     ]
 
     # ---- B + C at the cell level
-    n_cases = 6000 if quick else 120000
+    n_cases = 6000 if quick else 60000
     shards = par.NPROC * (1 if quick else 4)
     jobs = [(ck.rng.randrange(1 << 60), n_cases // shards, False) for _ in range(shards)]
-    n_len = 1600 if quick else 24000
+    n_len = 1600 if quick else 12000
     jobs += [(ck.rng.randrange(1 << 60), n_len // par.NPROC, True) for _ in range(par.NPROC)]
     fold_cell(ck, par.pmap(cell_worker, jobs))
 
@@ -1095,8 +1095,8 @@ def run(ck: core.Check):
     known_findings_stream(ck)
 
     # ---- end to end: every cell
-    n_sheets = 2 if quick else 8
-    budget = 60 if quick else 400
+    n_sheets = 2 if quick else 5
+    budget = 60 if quick else 200
     ejobs = [(ck.rng.randrange(1 << 60) if k else 1, n_sheets, budget) for k in range(par.NPROC)]
     cli_pool = []
     for r in par.pmap(e2e_worker, ejobs):
@@ -1130,7 +1130,7 @@ def run(ck: core.Check):
                     ck.violation(f"{name}: messages are not exactly the substituted values", {"family": name, "sheets": sheets, "got": messages(r.doc), "expected": exp})
             cli_jobs.append((name, kind, sheets, exp, scratch, f"fam{k}"))
         ck.rng.shuffle(cli_pool)
-        for k, c in enumerate(cli_pool[: (6 if quick else 40)]):
+        for k, c in enumerate(cli_pool[: (6 if quick else 24)]):
             cli_jobs.append((f"injected cell {c['cell']}", "error", sheet_as_workbook(c["rows"], c["ctx"]), None, scratch, f"inj{k}"))
             cli_jobs.append((f"control cell {c['cell']}", "ok", sheet_as_workbook(c["control"], c["ctx"]), None, scratch, f"ctl{k}"))
         if quick:
